@@ -964,6 +964,25 @@ def _s_rstrip(I, s, lineno, chars=None):
     return r
 
 
+def _s_strip(I, s, lineno, chars=None):
+    """s.strip(chars) for a concrete non-empty set of characters: s == l + m + r with l, r in [chars]* and m neither
+    starting nor ending with one of them (exact: m is determined by s).  Witnesses are recorded like rstrip's."""
+    if not (isinstance(chars, str) and len(chars) >= 1):
+        raise Unsupported('strip of a symbolic string needs a concrete character set')
+    zs = to_z3(s)
+    l = I.fresh('strip_left', z3.StringSort())
+    m = I.fresh('strip_kept', z3.StringSort())
+    r = I.fresh('strip_right', z3.StringSort())
+    cls = z3.Star(z3.Union(*[z3.Re(z3.StringVal(c)) for c in chars]) if len(chars) > 1 else z3.Re(z3.StringVal(chars)))
+    I.path.assume(z3.And(zs == z3.Concat(l, m, r), z3.InRe(l, cls), z3.InRe(r, cls),
+                         *[z3.And(z3.Not(z3.PrefixOf(z3.StringVal(c), m)), z3.Not(z3.SuffixOf(z3.StringVal(c), m)))
+                           for c in chars]))
+    if not hasattr(I, 'strip_witness'):
+        I.strip_witness = []
+    I.strip_witness.append((zs, m))
+    return m
+
+
 def _s_index(I, s, lineno, sub, start=None, end=None):
     r = _s_find(I, s, lineno, sub, start)
     missing = r < 0
@@ -1072,7 +1091,7 @@ def _s_format(I, s, lineno, *args, **kwargs):
 SYM_STR_METHODS = {
     'startswith': _s_startswith, 'endswith': _s_endswith, 'find': _s_find, 'index': _s_index,
     'casefold': _s_casefold, 'lower': _s_lower, 'replace': _s_replace, 'join': _s_join, 'format': _s_format,
-    'rfind': _s_rfind, 'rstrip': _s_rstrip,
+    'rfind': _s_rfind, 'rstrip': _s_rstrip, 'strip': _s_strip,
 }
 STR_METHODS = {n: _concrete_str_method(n) for n in
                ['startswith', 'endswith', 'find', 'rfind', 'index', 'rindex', 'casefold', 'lower', 'upper',
